@@ -63,6 +63,11 @@ def ppAtom : Atom → List Tok
   | .minscore neg n s => tNot neg ++ [kw "minscore" .score, tOpen, tId n, tComma, tInt s, tClose]
 end
 
+/-- a rule with the mandatory sections only: `RULE name CATEGORY cat CUTOFF c NEIGHBOURHOOD n CONDITIONS t` -/
+def ruleToks (name cat : String) (cutoffKb nbhKb : Nat) (t : OrE) : List Tok :=
+  [kw "RULE" .rule, tId name, kw "CATEGORY" .category, tId cat, kw "CUTOFF" .cutoff, tInt cutoffKb,
+   kw "NEIGHBOURHOOD" .neighbourhood, tInt nbhKb, kw "CONDITIONS" .conditions] ++ ppOr t
+
 /-! ### the parser objects a piece of syntax denotes -/
 
 mutual
